@@ -67,4 +67,18 @@ theorem shapeF_bin1_eq (s0 s1 es0 es1 b0 b1 u0 u1 eb0 eb1 p_mu p_uncorr_0 p_unco
     Gen.shapeF_bin1 realPrim s0 s1 es0 es1 b0 b1 u0 u1 eb0 eb1 p_mu p_uncorr_0 p_uncorr_1 p_stat_SR_0 p_stat_SR_1 = Gen.shapeF_ref1 realPrim s0 s1 es0 es1 b0 b1 u0 u1 eb0 eb1 p_mu p_uncorr_0 p_uncorr_1 p_stat_SR_0 p_stat_SR_1 := by
   unfold Gen.shapeF_bin1 Gen.shapeF_ref1; shape_eq2
 
+set_option maxRecDepth 8192 in
+set_option maxHeartbeats 1600000 in
+/-- shapeH, bin 0: tensor code = declared formula, for all parameters and all positive data -/
+theorem shapeH_bin0_eq (s0 s1 b0 b1 e0 p_lumi p_mu p_stat_SR_0 p_stat_SR_1 : ℝ) (_hs0 : 0 < s0) (_hs1 : 0 < s1) (_hb0 : 0 < b0) (_hb1 : 0 < b1) (_he0 : 0 < e0) :
+    Gen.shapeH_bin0 realPrim s0 s1 b0 b1 e0 p_lumi p_mu p_stat_SR_0 p_stat_SR_1 = Gen.shapeH_ref0 realPrim s0 s1 b0 b1 e0 p_lumi p_mu p_stat_SR_0 p_stat_SR_1 := by
+  unfold Gen.shapeH_bin0 Gen.shapeH_ref0; shape_eq2
+
+set_option maxRecDepth 8192 in
+set_option maxHeartbeats 1600000 in
+/-- shapeH, bin 1: tensor code = declared formula, for all parameters and all positive data -/
+theorem shapeH_bin1_eq (s0 s1 b0 b1 e0 p_lumi p_mu p_stat_SR_0 p_stat_SR_1 : ℝ) (_hs0 : 0 < s0) (_hs1 : 0 < s1) (_hb0 : 0 < b0) (_hb1 : 0 < b1) (_he0 : 0 < e0) :
+    Gen.shapeH_bin1 realPrim s0 s1 b0 b1 e0 p_lumi p_mu p_stat_SR_0 p_stat_SR_1 = Gen.shapeH_ref1 realPrim s0 s1 b0 b1 e0 p_lumi p_mu p_stat_SR_0 p_stat_SR_1 := by
+  unfold Gen.shapeH_bin1 Gen.shapeH_ref1; shape_eq2
+
 end Pyhf.Props.C01
